@@ -4,16 +4,34 @@
 import json, os, subprocess, sys, glob, time
 
 VERIF = os.path.dirname(os.path.dirname(os.path.abspath(__file__)))
+REPO = "/repo"
+ENV_EXTRA = {}
+if "--scratch" in sys.argv:
+    # same checks, pointed at a scratch worktree of /repo HEAD with its own (copied, relocatable) build directory, so that
+    # the checks of the unchanged tree can run at the same time
+    sys.argv.remove("--scratch")
+    base = os.environ.get("SEEDED_SCRATCH", "/tmp/rt/mine")
+    REPO = os.path.join(base, "wt")
+    if not os.path.isdir(REPO):
+        subprocess.run(["git", "-C", "/repo", "worktree", "add", "--detach", REPO, "HEAD"], check=True)
+    head = subprocess.run(["git", "-C", "/repo", "rev-parse", "HEAD"], capture_output=True, text=True).stdout.strip()
+    subprocess.run(["git", "-C", REPO, "checkout", "-q", "--detach", head], check=True)
+    broot = os.path.join(base, "build")
+    if not os.path.isdir(broot):
+        os.makedirs(broot)
+        subprocess.run(["cp", "-a", os.path.join(VERIF, ".build", "plain"), os.path.join(VERIF, ".build", "repo_roots.txt"), broot], check=True)
+    ENV_EXTRA = {"VERIF_REPO": REPO, "VERIF_BUILD_ROOT": broot, "VERIF_OUT": os.path.join(base, "out"),
+                 "VERIF_SCRATCH": os.path.join(base, "scratch")}
 names = sys.argv[1:] or sorted(os.path.basename(d) for d in glob.glob(os.path.join(VERIF, "seeded", "*")) if os.path.isdir(d))
 results = {}
 for n in names:
     d = os.path.join(VERIF, "seeded", n)
     meta = json.load(open(os.path.join(d, "meta.json")))
-    st = subprocess.run(["git", "-C", "/repo", "status", "--porcelain"], capture_output=True, text=True).stdout.strip()
+    st = subprocess.run(["git", "-C", REPO, "status", "--porcelain"], capture_output=True, text=True).stdout.strip()
     if st:
         print("refusing: /repo is dirty:\n" + st)
         sys.exit(2)
-    r = subprocess.run(["git", "-C", "/repo", "apply", os.path.join(d, "patch.diff")], capture_output=True, text=True)
+    r = subprocess.run(["git", "-C", REPO, "apply", os.path.join(d, "patch.diff")], capture_output=True, text=True)
     if r.returncode != 0:
         print(n, "patch does not apply:", r.stderr[:300])
         results[n] = "patch-failed"
@@ -24,7 +42,7 @@ for n in names:
             t0 = time.time()
             tier = meta.get("tier", "quick")
             rr = subprocess.run([os.path.join(VERIF, "check"), prop, "--tier", tier], capture_output=True, text=True,
-                                env={**os.environ, "VERIF_SCRATCH": os.path.join(VERIF, "scratch", "seeded")})
+                                env={**os.environ, "VERIF_SCRATCH": os.path.join(VERIF, "scratch", "seeded"), **ENV_EXTRA})
             viol = [l for l in rr.stdout.splitlines() if l.startswith("VIOLATION")]
             print(f"  {n}: {prop} rc={rr.returncode} violations={len(viol)} ({time.time()-t0:.0f}s)")
             if rr.returncode == 1 and viol:
@@ -34,5 +52,5 @@ for n in names:
                     print("     ", l.strip()[:200])
         results[n] = "caught by " + ",".join(caught) if caught else "MISSED"
     finally:
-        subprocess.run(["git", "-C", "/repo", "checkout", "--", "."], check=True)
+        subprocess.run(["git", "-C", REPO, "checkout", "--", "."], check=True)
 print(json.dumps(results, indent=1))
